@@ -302,7 +302,7 @@ class IMAPClientProxy:
                         await self.push(f"{imap_cmd.tag} BAD {e}\r\n")
                     else:
                         await self.push(f"* BAD {e}\r\n")
-                    return
+                    continue
 
                 # Pass the command on to the command processor to handle.
                 #
